@@ -16,6 +16,10 @@ let rec pos_of_int (i : int) : M.positive =
 let n_of_int (i : int) : M.n = if i = 0 then M.N0 else M.Npos (pos_of_int i)
 let n10 = n_of_int 10
 let n_of_string (s : string) : M.n =
+  (* unsigned decimal digits only: no sign, no radix prefix, no `_` (int_of_string would accept them and build a
+     different, valid-looking term) *)
+  if s = "" then failwith "bad number (empty)";
+  S.iter (fun c -> if c < '0' || c > '9' then failwith ("bad number " ^ s)) s;
   if S.length s <= 17 then n_of_int (int_of_string s)
   else begin
     let r = ref M.N0 in
@@ -47,6 +51,12 @@ let string_of_n (n : M.n) : string =
       L.iter (Buffer.add_char buf) (go n []);
       Buffer.contents buf
 
+(* a small natural number written in unsigned decimal *)
+let small_nat_of_string (s : string) : int =
+  if s = "" || S.length s > 9 then failwith ("bad small number " ^ s);
+  S.iter (fun c -> if c < '0' || c > '9' then failwith ("bad small number " ^ s)) s;
+  int_of_string s
+
 (* ---------- bytes ---------- *)
 let byte_tab : M.byte array =
   Array.init 256 (fun i -> match M.byte_of_N (n_of_int i) with Some b -> b | None -> assert false)
@@ -60,6 +70,7 @@ let hexval c =
   | _ -> failwith "bad hex"
 let bytes_of_hex (s : string) : M.byte list =
   let s = if s = "-" then "" else s in
+  if S.length s land 1 = 1 then failwith "bad hex (odd length)";
   let n = S.length s / 2 in
   let rec go i acc =
     if i < 0 then acc
@@ -99,7 +110,10 @@ let parse_sexp (s : string) : sexp =
       while !pos < n && s.[!pos] <> ' ' && s.[!pos] <> '(' && s.[!pos] <> ')' do incr pos done;
       A (S.sub s st (!pos - st))
     end in
-  one ()
+  let e = one () in
+  skip ();
+  if !pos <> n then failwith "sexp: trailing text";
+  e
 
 (* ---------- Coq strings ---------- *)
 let coq_string (s : string) : M.string =
@@ -128,7 +142,9 @@ let prim_of (s : string) : M.prim =
   | _ when s.[0] = 'i' -> M.PInt (true, width_of (tail 1))
   | _ -> failwith ("prim " ^ s)
 let atoms l = L.map (function A s -> s | _ -> failwith "atom expected") l
-let bools l = L.map (fun s -> s = "1") (atoms l)
+let bool_of (s : string) : bool =
+  match s with "1" -> true | "0" -> false | _ -> failwith ("flag must be 0 or 1, got " ^ s)
+let bools l = L.map bool_of (atoms l)
 let rec ty_of (e : sexp) : M.ty =
   match e with
   | Lst [A "prim"; A p] -> M.TPrim (prim_of p)
